@@ -57,7 +57,7 @@ def spec(tier, seed):
     # hunk / hunks on short symbolic buffers behind a concrete header
     for L in ([4] if q else [2, 4, 6]):
         inst.append(Instance("c11a_hunk_%d" % L, "parser", "t_hunk_body::<%d>()" % L, unwind=20, unwindset={"memcmp.0": 6}, stubs=[FROM_UTF8_STUB],
-                             mem_gb=8, timeout_s=1500, sub="C11a parse_hunk: concrete header, symbolic body", params=dict(body_bytes=L)))
+                             mem_gb=8, timeout_s=1500, unwind_fns={"libpatch::patch::unified::parser::parse_hunk.0": L + 2}, sub="C11a parse_hunk: concrete header, symbolic body", params=dict(body_bytes=L)))
     # (b) numeric fields through parse_hunk: concrete extreme values in one field (the others 1), symbolic body.
     # (Symbolic digit strings through parse_hunk exceed 8 GB: reserve() of a symbolic count; the header-only family
     #  c11b_value below decides every digit string for the number parser itself.)
@@ -77,7 +77,8 @@ def spec(tier, seed):
         nm = "c11b_num_%s" % "_".join(("e%d" % (len(str(x)) - 1) if x >= 10**12 and str(x).strip("0") == "1" else ("p%d%s" % (x.bit_length() - (0 if x & (x - 1) else 1), "" if x & (x - 1) == 0 else "m" if (x + 1) & x == 0 else "x") if x > 9 else str(x))) for x in (a_, b_, c_, d_))
         inst.append(Instance(nm, "parser", "t_numeric_conc::<%d>(%s)" % (n, bytes_lit(hdr.encode())), unwind=max(len(hdr), 26) + 2,
                              unwindset={"memcmp.0": 6}, stubs=[FROM_UTF8_STUB], mem_gb=8, timeout_s=1500, sub="C11b/d numeric fields through parse_hunk; capacity",
-                             params=dict(header=hdr.strip(), body="4 symbolic bytes")))
+                             unwind_fns={"libpatch::patch::unified::parser::parse_hunk.0": 7},
+                             params=dict(header=hdr.strip(), body="4 symbolic bytes (at most 4 hunk lines: the hunk loop is bounded by 7, unwinding assertion on)")))
     for d in ([20] if q else [1, 19, 20, 21]):
         n = 4 + d + 11
         inst.append(Instance("c11b_value_%d" % d, "parser", "t_header_value::<%d>(%d)" % (n, d), unwind=d + 14, unwindset={"memcmp.0": 6},
